@@ -537,6 +537,7 @@ pub fn check_cluster(args: &CheckArgs) -> i32 {
             "rule": cfg.rule,
             "samples": samples,
             "distinct_observable_logs": distinct_all.len(),
+            "log_digest": format!("{:016x}", crate::sim::rng::mix(&runs.iter().map(|r| r.log_hash).collect::<Vec<u64>>())),
             "nontrivial_runs": nontrivial.len(),
             "runs_per_hour": (runs.len() as f64 / wall * 3600.0) as u64,
             "seeds": {"verif_seed": args.seed, "first_run_seed": runs.first().map(|r| r.seed), "last_run_seed": runs.last().map(|r| r.seed)},
@@ -571,7 +572,7 @@ pub fn check_cluster(args: &CheckArgs) -> i32 {
         &evidence,
     );
     println!(
-        "{}: {} runs ({} non-trivial, {} distinct), {} steps, {} simulated s, {} abstract states, {:.1}s wall; violations={} known={} harness_errors={}",
+        "{}: {} runs ({} non-trivial, {} distinct), {} steps, {} simulated s, {} abstract states, log digest {:016x}, {:.1}s wall; violations={} known={} harness_errors={}",
         cfg.id,
         runs.len(),
         nontrivial.len(),
@@ -579,6 +580,7 @@ pub fn check_cluster(args: &CheckArgs) -> i32 {
         steps,
         sim_ms / 1000,
         states.len(),
+        crate::sim::rng::mix(&runs.iter().map(|r| r.log_hash).collect::<Vec<u64>>()),
         wall,
         violations.len(),
         known_hit.len(),
